@@ -22,6 +22,8 @@ import Sml.Lemmas.DecSound2
               - `reset` (this is the count attached to an I/O error by `DecoderReader`, see
                 `Rdr.onIoErr`): returns `len - b`;
               - a panic is a violation.
+  `frame_tile` adds (using the soundness invariant of C02) that the tile of a delivered payload
+  `m` is exactly `Spec.frame m`.
   All counters are unbounded `Nat`s and the theorems quantify over all streams / histories and all
   buffer capacities, so the counts are exact for arbitrarily long noise.
 -/
@@ -99,6 +101,15 @@ theorem frame_tile (cap : Option Nat) (s : List UInt8) (i : Nat) (m : List UInt8
 theorem reset_after_frame (d : Dec) (h : d.st = .done) :
     (d.reset).2 = 0 ∧ (d.finalize).2 = none := by
   simp [Dec.reset, Dec.finalize, h]
+
+/-- The count attached to an I/O error by `DecoderReader::read` (every error kind except
+`WouldBlock`, which does not reset the decoder and carries 0) is the value returned by `reset`,
+i.e. by `reset_count` exactly the number of bytes since the previous boundary. -/
+theorem io_error_count (kind : SrcKind) (d : Dec) (evs : List Ev) (k : IoKind)
+    (hk : k ≠ .wouldBlock) :
+    Rdr.onIoErr kind d evs k =
+      ({ kind := kind, dec := (d.reset).1, evs := evs }, RItem.ioErr k (d.reset).2) := by
+  cases k <;> simp_all [Rdr.onIoErr]
 
 /-! ### non-vacuity -/
 
